@@ -53,10 +53,14 @@ pub fn gen_expr(r: &mut Rng, params: &[(String, f64)], depth: usize) -> (String,
             }
         }
     } else {
+        // inside a gate body (formal parameters in scope) the value at the point of use is not known here: only
+        // operations that keep every finite input finite are used (no division by an expression, no ln / sqrt / exp / ^)
+        let in_body = !params.is_empty();
         for _ in 0..20 {
             let (a, va) = gen_expr(r, params, depth - 1);
             let (b, vb) = gen_expr(r, params, depth - 1);
-            let (s, v) = match r.below(9) {
+            let pick = if in_body { *r.pick(&[0usize, 1, 2, 4, 9, 10, 8][..]) } else { r.below(9) };
+            let (s, v) = match pick {
                 0 => (format!("{a}+{b}"), va + vb),
                 1 => (format!("{a}-({b})"), va - vb),
                 2 => (format!("({a})*({b})"), va * vb),
@@ -83,6 +87,20 @@ pub fn gen_expr(r: &mut Rng, params: &[(String, f64)], depth: usize) -> (String,
                     // left-associativity without parentheses: operands are atoms
                     let (b0, vb0) = gen_expr(r, params, 0);
                     (format!("({a}) - {b0} - 1"), va - vb0 - 1.0)
+                }
+                9 => {
+                    let f = *r.pick(&["abs", "floor", "ceil", "round"][..]);
+                    let v = match f {
+                        "abs" => va.abs(),
+                        "floor" => va.floor(),
+                        "ceil" => va.ceil(),
+                        _ => va.round(),
+                    };
+                    (format!("{f}({a})"), v)
+                }
+                10 => {
+                    let k = 2 + r.below(7);
+                    (format!("({a})/{k}"), va / k as f64)
                 }
                 _ => {
                     let (a0, va0) = gen_expr(r, params, 0);
